@@ -92,6 +92,7 @@ end
 local function foreign()
   local f = {}
   for k, v in pairs(_G) do f[k] = v end
+  f.__c06r = nil
   f[MARKER] = true
   f._G = f
   return f
@@ -358,8 +359,14 @@ def run_case(ctx, name: str, c: dict, names) -> dict:
                 extra |= s
             g[SINK] = None
         residue = [pyclass(x) for x in ctx.lua_env_stack]
+        for x in ctx.lua_env_stack:      # a table that stays on the deque is cloned by later invocations: no stale reports
+            if pyclass(x) == "table":
+                try:
+                    x[SINK] = None
+                except Exception:
+                    pass
         reported = set().union(*[set(st[i]["sees"]) for i in idxs])
-        segs.append({"steps": list(idxs), "hostwrite": hostwrite, "residue": residue,
+        segs.append({"steps": list(idxs), "hostwrite": hostwrite, "residue": residue, "sees": sorted(reported | extra),
                      "extra": sorted(extra - reported), "where": where})
     return {"steps": st, "segs": segs}
 
@@ -439,16 +446,22 @@ def live_helpers(d: Path, marker: str) -> dict:
 # ---------------------------------------------------------------------------
 
 def proj_model(outs, steps):
+    """what of TLC's per-step outcome the harness can observe: per step what the consumer got and the type of the stack
+    top afterwards; per invocation (segment) the union of the names seen (a chunk whose value never reaches the page
+    code that loaded it - nested #invoke answering with an error - reports through a global of its environment only),
+    whether a chunk wrote into the host global table, what stays on the deque"""
     res = []
     for _, idxs in segments(steps):
-        res.append({"steps": [{"got": outs[i]["got"], "top": outs[i]["top"], "sees": sorted(outs[i]["sees"])} for i in idxs],
+        res.append({"steps": [{"got": outs[i]["got"], "top": outs[i]["top"]} for i in idxs],
+                    "sees": sorted(set().union(*[set(outs[i]["sees"]) for i in idxs])),
                     "hostwrite": any(outs[i]["hostwrite"] for i in idxs),
                     "residue": list(outs[idxs[-1]]["residue"])})
     return res
 
 
 def proj_obs(obs):
-    return [{"steps": [obs["steps"][i] for i in s["steps"]], "hostwrite": s["hostwrite"], "residue": s["residue"]}
+    return [{"steps": [{"got": obs["steps"][i]["got"], "top": obs["steps"][i]["top"]} for i in s["steps"]],
+             "sees": s["sees"], "hostwrite": s["hostwrite"], "residue": s["residue"]}
             for s in obs["segs"]]
 
 
@@ -678,7 +691,7 @@ def replay_case(case) -> int:
     bad = 0
     for x, ob, wh in zip(case["expected"], proj_obs(obs), [s["where"] for s in obs["segs"]]):
         flag = ""
-        if ob["hostwrite"] or any(set(s["sees"]) & fb for s in ob["steps"]):
+        if ob["hostwrite"] or set(ob["sees"]) & fb:
             flag = "   <== page code holds host capabilities"
             bad = 1
         print(f"  expected {x}\n  observed {ob} {wh}{flag}")
@@ -711,6 +724,7 @@ def selftest() -> bool:
         alt = c["alt"][lab]
         fake = {"steps": [{"got": e["got"], "top": e["top"], "sees": sorted(e["sees"])} for e in alt],
                 "segs": [{"steps": idxs, "hostwrite": any(alt[i]["hostwrite"] for i in idxs), "residue": list(alt[idxs[-1]]["residue"]),
+                          "sees": sorted(set().union(*[set(alt[i]["sees"]) for i in idxs])),
                           "extra": [], "where": {}} for _, idxs in segments(c["steps"])]}
         bad = g.judge(c, fake, forbidden, "selftest")
         print("stack: case", c["cx"], [fmt_step(s) for s in c["steps"]], "real outcome:", good, "; corrupted observation:", bad,
